@@ -1,5 +1,6 @@
 mod common;
 mod stream;
+mod prims;
 mod pwstr;
 mod untrusted;
 mod aead;
@@ -49,6 +50,9 @@ fn main() {
         "untrusted-tags" => untrusted::cmd_tags(rest),
         "untrusted-pwstr" => untrusted::cmd_pwstr(rest),
         "pwstr" => pwstr::cmd_pwstr(rest),
+        "prims-vectors" => prims::cmd_vectors(rest),
+        "prims-sweep-c07" => prims::cmd_sweep_c07(rest),
+        "prims-sweep-c12" => prims::cmd_sweep_c12(rest),
         "inc-splits" => inchash::cmd_splits(rest),
         "inc-replay" => inchash::cmd_replay(rest),
         "inc-trace" => inchash::cmd_trace(rest),
